@@ -8,6 +8,7 @@ delta debugging independent of the generator.
 """
 import os
 import re
+import sys
 import shutil
 import tempfile
 import collections
@@ -82,10 +83,22 @@ class _TimeShim(object):
         return getattr(_real, name)
 
 
+CURRENT_ENGINE = [None]
+
+
 class VEvent(gevent.event.Event):
-    """gevent Event whose wait(timeout) parks on a virtual timer."""
+    """gevent Event whose wait(timeout) parks on a virtual timer. With cfg['sched_gate'] the waiter (the scheduler loop of the
+    Queue) additionally parks on a harness gate once it has been woken: the history decides when it gets to look at the schedule
+    (a scheduler that is woken but has not run yet - busy hub, blocked in a full pool - is an ordinary situation)."""
 
     def wait(self, timeout=None):
+        ret = self._wait(timeout)
+        eng = CURRENT_ENGINE[0]
+        if eng is not None and eng.cfg.get('sched_gate'):
+            eng.park('sched', '-')
+        return ret
+
+    def _wait(self, timeout):
         if timeout is None:
             return gevent.event.Event.wait(self)
         if self.is_set():
@@ -320,6 +333,7 @@ class BounceQueueQ(Queue):
 class Engine(object):
     def __init__(self, cfg):
         self.cfg = cfg
+        CURRENT_ENGINE[0] = self
         CLOCK.now = 1000.0
         CLOCK.mono_base = 990.0
         CLOCK.timers = []
@@ -1046,6 +1060,7 @@ class Engine(object):
     # -- teardown ------------------------------------------------------------------------------
     def close(self):
         try:
+            CURRENT_ENGINE[0] = None
             self.queue.kill()
             for g in list(self.pending):
                 g.ar.set(Abort())
